@@ -85,6 +85,8 @@ class SdkDriver:
     # ---- statements ----------------------------------------------------------------------------
     def block(self, stmts):
         for st in stmts:
+            if getattr(self, "before_nested", None) is not None:
+                self.before_nested(st)
             if self.on_nested is not None:
                 self.on_nested(self, st)      # a completed operation inside the body of an enclosing one
             else:
